@@ -1543,6 +1543,21 @@ static void gen(rng &r, const std::string &tier)
             printf("d%c %s %s\n", a ? 'a' : 's', d, hex(b).c_str());
         }
     }
+    // probes of the recorded finding C09-count-wraps-at-65536: the ROUND-TRIP oracle on containers of 65536 elements
+    {
+        DT tv8, tm;
+        dt_of("V(u8)", tv8); dt_of("M(u16,V(u8))", tm);
+        std::string big = show(tv8, vec_of(0, 65536, r, true));
+        printf("@F:C09-count-wraps-at-65536 a V(u8) %s 05\n", big.c_str());
+        printf("@F:C09-count-wraps-at-65536 s V(u8) %s 05\n", big.c_str());
+        printf("@F:C09-count-wraps-at-65536 seqa - V(u8) %s u8 05\n", big.c_str());
+        if (th)
+        {
+            DV m;
+            for (size_t i = 0; i < 65536; i++) { DV e; e.kids.push_back(DV::scalar(i)); e.kids.push_back(DV()); m.kids.push_back(e); }
+            printf("@F:C09-count-wraps-at-65536 a M(u16,V(u8)) %s -\n", show(tm, m).c_str());
+        }
+    }
     // (8) probes of the recorded finding C09-archive-reader-unbounded: the archive reader on a truncated encoding
     {
         struct { const char *d; const char *v; int k; } pr[] = {
